@@ -497,7 +497,8 @@ class C04(Check):
                     if f2 is not None:
                         short, fail = part, f2; break
             names = {}                                 # members named in the order they are first touched
-            for o in hist: names.setdefault(op_split(o)[1], 'ab'[len(names)])
+            for o in hist:
+                if op_split(o)[1] not in names: names[op_split(o)[1]] = 'ab'[len(names)]
             kinds = ','.join(KIND.get(op_split(o)[0], op_split(o)[0]) + '@' + names[op_split(o)[1]] for o in hist) or 'none'
             mode = 'a member\'s read differs from a fresh twin of that member alone' if fam == 'yields' else fail.mode
             return f"Environments.{short}() on a collection of two environments|{mode}|history={kinds}", hist, pipe
